@@ -60,7 +60,7 @@ func replayMass(r *runner.Run, t *testing.T) bool {
 func massPart(r *runner.Run, t *testing.T) {
 	sizes := []int{1, 99, 100, 101, 255, 256, 257, 511, 513, 1000, 1001}
 	if r.Thorough() {
-		sizes = append(sizes, 1023, 1025, 2047, 2049, 4097, 10001)
+		sizes = append(sizes, 1023, 1025, 2047, 2049, 4097, 9995) // the default queue_limits max_depth is 10 000
 	}
 	var cases []mcase
 	for _, be := range []string{"sqlite", "memory"} {
